@@ -120,7 +120,18 @@ func runHops(t *testing.T, hp hopProto, ttls []int) sim.Result {
 					}
 				}
 			} else {
+				hs := []int{}
 				for h := 0; h <= ttl+2 && h <= 300; h++ {
+					hs = append(hs, h)
+				}
+				// the largest counts a peer can put into the hop byte, whatever the limit (a count that wraps round when it
+				// is incremented must not come out as a small one)
+				for _, h := range []int{253, 254, 255} {
+					if h > ttl+2 {
+						hs = append(hs, h)
+					}
+				}
+				for _, h := range hs {
 					body := binary.BigEndian.AppendUint32(nil, uint32(h))
 					body = append(body, 'z')
 					d, hl, last := try(body)
